@@ -111,11 +111,13 @@ type Deliver struct {
 	N        int    `json:"n"`                  // bytes handed over (capped by len(p) and by what is left)
 	Err      string `json:"err,omitempty"`      // "" | "eof" | "transient" | "permanent"
 	Scribble bool   `json:"scribble,omitempty"` // scribble on p[n:] before returning
+	Reenter  bool   `json:"reenter,omitempty"`  // the reader calls the library itself (nested use of the pools)
 }
 
 type Writer struct {
 	FailAt int    `json:"fail_at,omitempty"` // 1-based index of the Write call that fails; 0 = never
 	Short  bool   `json:"short,omitempty"`   // failing write reports half of the bytes as written
+	Reenter bool  `json:"reenter,omitempty"` // every Write calls the library itself before returning
 	Mode   string `json:"mode,omitempty"`
 }
 
